@@ -217,6 +217,35 @@ def mesh_flow(mpath):
     return facts
 
 
+def skeleton_flag(repo):
+    """EquilibriumRegion.getSfuncFixedSpacing, branch method == 'nonorthogonal' (how the separatrix skeleton is gridded when the mesh is BUILT): every spacing
+    function constructed there must be given the spacing parameters that come from the ORTHOGONAL options (spacings['nonorthogonal_orthogonal_d_lower' / '_upper'],
+    i.e. target_*_poloidal_spacing_length / xpoint_poloidal_spacing_length), never the defaults that read the nonorthogonal_* options"""
+    path = os.path.join(repo, "hypnotoad/core/equilibrium.py")
+    fn = get_function(path, "EquilibriumRegion.getSfuncFixedSpacing")
+    branch = None
+    for n in ast.walk(fn):
+        if isinstance(n, ast.If) and src_of(n.test) == "method == 'nonorthogonal'":
+            branch = n
+    if branch is None:
+        raise TranslationError("getSfuncFixedSpacing: branch method == 'nonorthogonal' not found")
+    calls = [c for st in branch.body for c in ast.walk(st) if isinstance(c, ast.Call) and src_of(c.func) in ("self.combineSfuncs", "self.getSfuncFixedSpacing")]
+    if len(calls) < 4:
+        raise TranslationError(f"getSfuncFixedSpacing: expected at least 4 constructor calls in the nonorthogonal branch, found {len(calls)}")
+    ok = True
+    for c in calls:
+        kw = {k.arg: src_of(k.value) for k in c.keywords}
+        if kw.get("spacing_lower") != "spacings['nonorthogonal_orthogonal_d_lower']" or kw.get("spacing_upper") != "spacings['nonorthogonal_orthogonal_d_upper']":
+            ok = False
+    # ... and those two parameters must come from the orthogonal options
+    gs = ast.unparse(get_function(path, "EquilibriumRegion.getSpacings"))
+    for frag in ("nonorthogonal_orthogonal_d_lower = self.getTargetParameter('target_poloidal_spacing_length')", "nonorthogonal_orthogonal_d_lower = self.user_options.xpoint_poloidal_spacing_length",
+                 "nonorthogonal_orthogonal_d_upper = self.getTargetParameter('target_poloidal_spacing_length')", "nonorthogonal_orthogonal_d_upper = self.user_options.xpoint_poloidal_spacing_length"):
+        if frag not in gs:
+            ok = False
+    return ok
+
+
 def emit(repo):
     eqp = os.path.join(repo, "hypnotoad/core/equilibrium.py")
     mp = os.path.join(repo, "hypnotoad/core/mesh.py")
@@ -250,6 +279,7 @@ def emit(repo):
           f"Definition sfunc_orthogonal_written_at_build_only : bool := {b(mf['sfunc_orthogonal_writers'] == ['MeshRegion.addPointAtWallToContours'])}.",
           f"Definition geometry_recomputes_all : bool := {b(mf['geometry_sequence'] == ['calculateRZ-if-missing', 'region.calcDistances', 'region.geometry1', 'region.geometry2', 'region.calcZShift', 'region.calcMetric'][:len(mf['geometry_sequence'])] and len(mf['geometry_sequence']) >= 6 and mf['geometry1_no_caching'])}.",
           f"Definition geometry_reentrant : bool := {b(mf['geometry_reentrant'])}.",
+          f"Definition skeleton_ignores_nonorthogonal_settings : bool := {b(skeleton_flag(repo))}.",
           f"Definition calculateRZ_refills_all : bool := {b(mf['calculateRZ_sequence'] == ['region.fillRZ', 'region.getRZBoundary', 'region.calcPenaltyMask'])}.", ""]
     d = dict(effects=eff)
     d.update(of)
